@@ -166,8 +166,8 @@ package internal
 //@ spec func sortedNext(i *Index, r Record) bool = 0 <= recRefID(r) && recRefID(r) <= 1048576 && len(i.Refs) <= 1048576 &&
 //@     recRefID(r) >= len(i.Refs) - 1 && (recRefID(r) == len(i.Refs) - 1 ==> recStart(r) >= i.LastRecord) &&
 //@     0 <= recStart(r) && recStart(r) < recEnd(r) && recEnd(r) <= 536870910
-//@ spec func tilesBelow(iv []bgzf.Offset, o bgzf.Offset) bool = forall t in 0..len(iv) :: voff(iv[t]) <= voff(o)
 //@ spec func okOff(o bgzf.Offset) bool = 0 <= o.File && o.File < 140737488355328
+//@ spec func tilesBelow(iv []bgzf.Offset, o bgzf.Offset) bool = forall t in 0..len(iv) :: (okOff(iv[t]) && voff(iv[t]) <= voff(o))
 //@ spec func binsValid(bins []Bin) bool = len(bins) <= 65536 && forall a in 0..len(bins) :: (len(bins[a].Chunks) <= 1048576 &&
 //@     forall b in 0..len(bins[a].Chunks) :: (okOff(bins[a].Chunks[b].Begin) && okOff(bins[a].Chunks[b].End)))
 
